@@ -370,7 +370,7 @@ func runC05(c *Ctx) {
 			hostRemovedMidPlan(c, i)
 		}
 	}
-	for i := 0; i < c.Pick(12, 480); i++ {
+	for i := 0; i < c.Pick(21, 840); i++ {
 		if c.Mine(i+3) || c.Replay != nil {
 			unpreparedAlongThePlan(c, i)
 		}
